@@ -425,7 +425,9 @@ class XMIResource(Resource):
             feat_name = feat._name
             value = obj.__getattribute__(feat_name)
             if value is None:
-                if serialize_default:
+                # None is lost by omission when the default is something else
+                if serialize_default or (feat.is_attribute and
+                                         feat.get_default_value() is not None):
                     node.append(self._build_none_node(feat_name))
                 continue
             if hasattr(feat._eType, 'eType') and feat._eType.eType is dict:
